@@ -112,4 +112,57 @@ theorem C01_map_literal (s : Scope) (σ : ArgMap) (ints : String → Int) (ctx :
   · simp only [compileDataExpr]; rw [hkv]; rfl
   · simp only [tryAsData]; rw [hkv]; rfl
 
+/-! ## the same for `⟦·⟧` -/
+
+theorem pairs_flatKV (s : Scope) (ints : String → Int) : ∀ kvs : List (DExp × DExp),
+    pairs ((flatKV kvs).map (DExp.den s ints)) = kvs.map fun kv => (kv.1.den s ints, kv.2.den s ints)
+  | [] => by simp [flatKV, pairs]
+  | kv :: rest => by simp [flatKV, pairs, pairs_flatKV s ints rest]
+
+/-- **`⟦{k1: v1, …}⟧`** is a value whose data is the same association list, in the order written. -/
+theorem C01_map_literal_semantics (ρ : Env) (s : Scope) (ints : String → Int) (hp : ρ.prog = s.prog)
+    (kvs : List (DExp × DExp)) (hok : ∀ kv ∈ kvs, kv.1.EOK ρ ints ∧ kv.2.EOK ρ ints) (mode : Mode) (k : Nat) :
+    ∃ v, eval ρ (2 * DExp.depthL (flatKV kvs) + 5 + k) mode (.node .map (DExp.toLL (flatKV kvs))) = .ok v ∧
+      v.toData = some (.map (kvs.map fun kv => (kv.1.den s ints, kv.2.den s ints))) := by
+  let D := DExp.depthL (flatKV kvs)
+  let F := 2 * D + 3 + k
+  have step : ∀ v ∈ flatKV kvs, ∃ t, eval ρ F mode v.toL = .ok t ∧ ∃ r, (Outcome.ok t : Outcome Val) = .ok r ∧
+      (match r.toData with | some d => Outcome.ok d | none => .err "x") = .ok (v.den s ints) := by
+    intro v hvm
+    have hd : v.depth ≤ D := DExp.depth_le_depthL hvm
+    obtain ⟨kv, hkv, hv⟩ := mem_flatKV hvm
+    have hvok : v.EOK ρ ints := by rcases hv with rfl | rfl; exact (hok kv hkv).1; exact (hok kv hkv).2
+    obtain ⟨t, ht, hdata⟩ := egood ρ s ints hp v hvok mode (2 * (D - v.depth) + 2 + k)
+    rw [show 2 * v.depth + 1 + (2 * (D - v.depth) + 2 + k) = F by simp only [F]; omega] at ht
+    exact ⟨t, ht, t, rfl, by rw [hdata]⟩
+  obtain ⟨ts, hts, rs, hrs, hcs⟩ := mapMO_chain3 (fun v : DExp => eval ρ F mode v.toL) _ _ (DExp.den s ints) _ step
+  have hrt : rs = ts := by
+    have : ∀ ts : List Val, mapMO (fun t => (Outcome.ok t : Outcome Val)) ts = .ok ts := by
+      intro ts; induction ts with
+      | nil => simp [mapMO]
+      | cons t ts ih => simp [mapMO, ih]
+    rw [this] at hrs; cases hrs; rfl
+  subst hrt
+  have hdat : rs.map Val.toData = ((flatKV kvs).map (DExp.den s ints)).map some := by
+    have : ∀ (rs : List Val) (ds : List PData),
+        mapMO (fun r : Val => match r.toData with | some d => Outcome.ok d | none => .err "x") rs = .ok ds →
+        rs.map Val.toData = ds.map some := by
+      intro rs
+      induction rs with
+      | nil => intro ds hh; simp [mapMO] at hh; subst hh; rfl
+      | cons r rs ih =>
+        intro ds hh
+        simp only [mapMO] at hh
+        obtain ⟨d, hd, hh⟩ := bind_eq_ok.mp hh
+        obtain ⟨ds', hds', hh⟩ := bind_eq_ok.mp hh
+        simp only [pure_eq_ok, Outcome.ok.injEq] at hh
+        subst hh
+        cases hr : r.toData with
+        | none => simp [hr] at hd
+        | some d' => simp only [hr, Outcome.ok.injEq] at hd; subst hd; simp [hr, ih _ hds']
+    exact this _ _ hcs
+  refine ⟨.data (.map (pairs ((flatKV kvs).map (DExp.den s ints)))), ?_, by simp [Val.toData, pairs_flatKV]⟩
+  rw [show 2 * DExp.depthL (flatKV kvs) + 5 + k = (F + 1) + 1 by simp only [F, D]; omega, eval]
+  simp only [evalL_eq_mapMO, DExp.toLL_eq_map, mapMO_map, hts, ok_bind, mapM_toData hdat]
+
 end Tx3.Lang
